@@ -705,13 +705,15 @@ func TestProofReplay(t *testing.T) {
 					impl := s.A.Impl
 					switch {
 					case len(rv.raw) > 6 && rv.raw[:6] == "panic:":
-						report(si, fmt.Sprintf("range-proof:panic:%s:%s", s.A.M, impl), "VerifyRangeProof panicked: "+rv.raw, s.Expect, rv.raw)
+						report(si, fmt.Sprintf("range-proof:panic:%s:%s", impl, s.A.M), "VerifyRangeProof panics on a "+s.Expect+"-class claim ("+s.A.M+") instead of returning a verdict: "+rv.raw, s.Expect, rv.raw)
+					case s.Expect == "accept" && !rv.accepted && len(s.P) == 0:
+						report(si, "range-proof:empty-trie-rejected:"+impl, "the (true) empty claim on the empty trie is rejected: "+rv.raw, "accept", rv.raw)
 					case s.Expect == "accept" && !rv.accepted:
-						report(si, "range-proof:true-claim-rejected:"+impl, "a true range claim is rejected: "+rv.raw, "accept", rv.raw)
+						report(si, "range-proof:incomplete:"+impl+":true-claim-rejected", "a true range claim is rejected: "+rv.raw, "accept", rv.raw)
 					case s.Expect == "accept" && rv.more != s.More:
-						report(si, "range-proof:has-more-wrong:"+impl, "a true range claim is accepted with a wrong has-more flag", s.More, rv.more)
+						report(si, "range-proof:incomplete:"+impl+":has-more-wrong", "a true range claim is accepted with a wrong has-more flag", s.More, rv.more)
 					case s.Expect == "reject" && rv.accepted:
-						report(si, fmt.Sprintf("range-proof:false-claim-accepted:%s:%s", s.A.M, impl), "a false range claim ("+s.A.M+") is accepted", "reject", "accepted")
+						report(si, fmt.Sprintf("range-proof:unsound:%s:%s", impl, s.A.M), "a false range claim ("+s.A.M+") is accepted", "reject", "accepted")
 					case s.Expect == "left-edge" && rv.accepted:
 						counts["left-edge-accepted-"+impl]++
 						report(si, "range-proof:left-edge-omission:"+impl,
